@@ -12,7 +12,7 @@ import (
 
 func init() { hubC11 = setupC11Hub }
 
-var c11Causes = []string{"disconnect-A", "disconnect-B", "unregister-A", "cut", "half-open", "unsafe-close-B", "reregister-A", "shutdown-B"}
+var c11Causes = []string{"disconnect-A", "disconnect-B", "unregister-A", "cut", "half-open", "unsafe-close-B", "reregister-A", "shutdown-B", "crash-B", "crash-B-silent", "restart-B"}
 
 // setupC11Hub: two real hubs; connections end for 1-4 coinciding reasons
 // (double-connection resolution comes for free when both dial at once), with
@@ -63,16 +63,35 @@ func setupC11Hub(x *Ctx) {
 			switch c {
 			case "disconnect-A":
 				// not waited for: the next cause may coincide with it
-				x.Go("A:op", func() { a.hub.DisconnectSKI(b.ski, "x") })
+				a.spawn("op", func() { a.hub.DisconnectSKI(b.ski, "x") })
+			case "crash-B", "crash-B-silent":
+				// the peer process dies: killed (sockets reset) or power loss (silence)
+				if !b.crashed {
+					b.crash(c == "crash-B")
+					x.Probe(c)
+				}
+			case "restart-B":
+				if b.crashed {
+					b.restart(a)
+					x.Probe(c)
+				}
 			case "disconnect-B":
-				x.Go("B:op", func() { b.hub.DisconnectSKI(a.ski, "x") })
+				if b.crashed {
+					break
+				}
+				hb := b.hub
+				b.spawn("op", func() { hb.DisconnectSKI(a.ski, "x") })
 			case "unregister-A":
-				x.Go("A:op", func() { a.hub.UnregisterRemoteSKI(b.ski) })
+				a.spawn("op", func() { a.hub.UnregisterRemoteSKI(b.ski) })
 			case "reregister-A":
-				x.Go("A:op", func() { a.hub.RegisterRemoteSKI(b.ski) })
+				a.spawn("op", func() { a.hub.RegisterRemoteSKI(b.ski) })
 			case "unsafe-close-B":
-				x.Go("B:op", func() {
-					for _, cn := range b.hub.VerifConnections() {
+				if b.crashed {
+					break
+				}
+				hb := b.hub
+				b.spawn("op", func() {
+					for _, cn := range hb.VerifConnections() {
 						cn.CloseConnection(false, 4500, "x")
 					}
 				})
@@ -85,9 +104,10 @@ func setupC11Hub(x *Ctx) {
 					cn.SetBlackhole(true)
 				}
 			case "shutdown-B":
-				if !shutB {
+				if !shutB && !b.crashed && b.gen == 0 {
 					shutB = true
-					x.Go("B:op", func() { b.hub.Shutdown() })
+					hb := b.hub
+					b.spawn("op", func() { hb.Shutdown() })
 				}
 			}
 		}
@@ -107,6 +127,13 @@ func checkHubAccounting(x *Ctx, r *hubRig) {
 	last := map[pk]string{}
 	for _, e := range x.Events() {
 		switch e.Kind {
+		case "crash":
+			// the application of that node died with it: its notification history starts afresh
+			for k := range last {
+				if k.node == e.A {
+					delete(last, k)
+				}
+			}
 		case "hub-closed":
 			closed[ck{e.A, e.B}]++
 		case "app-setup":
@@ -129,6 +156,9 @@ func checkHubAccounting(x *Ctx, r *hubRig) {
 	}
 	for _, nn := range r.order {
 		n := r.nodes[nn]
+		if n.crashed {
+			continue // no process, nothing to account for
+		}
 		var reg map[string]int
 		n.on("query", func() {
 			reg = map[string]int{}
@@ -153,7 +183,7 @@ func checkHubAccounting(x *Ctx, r *hubRig) {
 			if registered {
 				open := false
 				for _, cn := range x.Net.Conns() {
-					if cn.Node() == n.name && cn.PeerNode() == m.name && !cn.Closed() && !cn.Broken() {
+					if cn.Node() == n.name && cn.PeerNode() == m.name && !cn.Closed() && !cn.Broken() && !x.S.Frozen(cn.Group()) {
 						open = true
 					}
 				}
